@@ -33,6 +33,16 @@ def gen(rng):
                 e.setdefault('forms', []).append({'writtenForm': extra})
         if not e.get('senses'):
             e['senses'] = [{'id': e['id'] + '-s0', 'synset': a['synsets'][0]['id'], 'meta': None}]
+    # two lemmas that differ only in case, the lower-case one stored first: both are found by the lower-case query
+    low, var = rng.choice([('wolf', 'Wolf'), ('wolf', 'WOLF'), ('resume', 'RESUME'), ('lights', 'Lights'), ('san jose', 'San Jose'),
+                           ('water bottle', 'Water Bottle'), ('angstrom', 'ANGSTROM')])
+    forced = []
+    if len(a['entries']) >= 2 and rng.random() < 0.7:
+        i = rng.randrange(len(a['entries']) - 1)
+        for e, w in ((a['entries'][i], low), (a['entries'][i + 1], var)):
+            e['lemma']['writtenForm'] = w
+            e['forms'] = [f for f in e.get('forms', []) if f['writtenForm'] != w]
+        forced = [low, var]
     other = g.lexicon('o', '1', '1.1', n_syn=2, n_ent=3, lang='en', forms_pool=FORMS)
     table = {}
     for q in rng.sample(QUERIES, 6):
@@ -43,13 +53,23 @@ def gen(rng):
         seen = set()
         props = [p for p in props if not (p[0] in seen or seen.add(p[0]))]
         table[q] = props
-    ops = [multi.add_op({'a:1': a, 'o:1': other}, ['a:1', 'o:1'], '1.1')]
+    # a second version of the same lexicon: every entity id occurs in two selected lexicons
+    import copy
+    a2 = copy.deepcopy(a)
+    a2['version'] = '2'
+    for e in a2['entries']:
+        if rng.random() < 0.3:
+            e['lemma']['writtenForm'] = rng.choice(FORMS)
+            e['forms'] = [f for f in e.get('forms', []) if f['writtenForm'] != e['lemma']['writtenForm']]
+    ops = [multi.add_op({'a:1': a, 'o:1': other, 'a:2': a2}, ['a:1', 'o:1', 'a:2'], '1.1')]
     extra = set()
-    for _ in range(40):
-        q = rng.choice(QUERIES)
-        op = {'k': 'find', 'lexicon': rng.choice(['a:1', 'a:1', 'a:1 o:1']), 'form': q, 'pos': rng.choice([None, None, 'n', 'v', 'a', 'x']),
+    for n_ in range(40):
+        q = forced[n_] if n_ < len(forced) else rng.choice(QUERIES)
+        op = {'k': 'find', 'lexicon': rng.choice(['a:1', 'a:1', 'a:1 o:1', 'a:1 a:2', 'a:2 a:1 o:1']), 'form': q, 'pos': rng.choice([None, None, 'n', 'v', 'a', 'x']),
               'normalizer': rng.random() < 0.7, 'all_forms': rng.random() < 0.7,
               'lemmatizer': rng.choice([None, None, table, 'morphy', 'morphy_init'])}
+        if n_ < len(forced):
+            op.update({'normalizer': True, 'pos': None, 'lemmatizer': None})
         ops.append(op)
         extra.add(q)
         for rules in SPEC_RULES.values():
